@@ -522,3 +522,6 @@ Definition own_steps_left (th : thread) : nat :=
   | TReload _ false => 1 | TReload _ true => 0
   | _ => 0
   end.
+
+(* a handler that has not looked anything up yet (every handler starts like that) *)
+Definition handler_fresh (th : thread) : bool := match th with THandler _ (H1 _) => false | _ => true end.
